@@ -118,7 +118,12 @@ def constructs():
               ("test", at(C(F(("cmp", ">", qa(), qc(C(N("lim")))))))),
               ("cmp", ">", call("count", qr(C(N("l")), C(F(("cmp", "==", qa(), qc(C(N("lim")))))))), L(0)),
               ("test", ctx(C(N("xs")), C(F(("cmp", ">", qa(), qc(C(N("lim")))))))),
-              ("cmp", "==", qc(C(N("lim"))), qr(C(N("k")))), ("test", ctx())):
+              ("cmp", "==", qc(C(N("lim"))), qr(C(N("k")))), ("test", ctx()),
+              # $ inside a filter of a context query is still the document
+              ("test", ctx(C(N("xs")), C(F(("cmp", ">", qa(), qr(C(N("k")))))))),
+              ("cmp", "==", call("count", qc(C(N("xs")), C(F(("cmp", "==", qa(), qr(C(N("k")))))))), L(1)),
+              ("test", ctx(C(N("xs")), C(F(("cmp", "==", qa(), qc(C(N("lim")))))))),
+              ("test", ctx(C(N("o")), C(F(("test", Q(C(N("s"))))))))):
         out.append(("context", Q(A, C(F(e)))))
     # in / contains
     for e in (("cmp", "in", qa(), ("list", [2, "a"])), ("cmp", "in", qa(), qr(C(N("l")))), ("cmp", "contains", qr(C(N("l"))), qa()),
